@@ -127,7 +127,11 @@ def run_method(F, role, method, pending, args_kind="some"):
                 nm = el.items[0].info.get("lc", "?")
         return Sc(ssym("EVAL_" + nm))
 
-    I.hooks[H.P_PRV + "eval"] = hook_eval
+    try:
+        I.hooks[H.eval_site(F)[0]] = hook_eval
+    except FX.AnchorMissing:
+        if role == "prover":
+            raise
     st = state(role, pending)
     if method == "multiply":
         args = [st, mk_lc("left"), mk_lc("right")]
